@@ -20,7 +20,7 @@ VARIABLES fam, t, s, kind, cnt, mn, mx, faces, bonus
 
 vars == <<fam, t, s, kind, cnt, mn, mx, faces, bonus>>
 
-Clamps(ss) == {<<NONE, NONE>>} \cup {<<a, NONE>> : a \in 1..ss} \cup {<<NONE, b>> : b \in 1..ss}
+Clamps(ss) == {<<NONE, NONE>>} \cup {<<a, NONE>> : a \in 0..(ss + 2)} \cup {<<NONE, b>> : b \in 0..(ss + 2)}
               \cup {<<a, b>> \in (1..ss) \X (1..ss) : a <= b}
 
 InitCommon ==
